@@ -444,6 +444,13 @@ def rule_exc(tk, F, may_throw, exc_ret, ret_type='HandledEnum'):
                 del out[s:]
                 out += [T(x, L) for x in ['{', ret_type, v, '=']] + expr + [T(';', L)] + [T(x, L) for x in ret] + [T(x, L) for x in ['return', v, ';', '}']]
                 F.hit('EXC'); i += 1; continue
+            if has_throw(seg) and len(seg) > 2 and re.match(r'[A-Za-z_]\w*$', seg[0]) and seg[1] == '=' and seg[0] not in may_throw:
+                # x = f(..);  : when f throws the assignment does not happen (x keeps its old, possibly indeterminate, value)
+                tmp += 1; L = t.line; v = '__exc_t%d' % tmp
+                lhs = seg[0]; expr = seg[2:]
+                del out[s:]
+                out += [T(x, L) for x in ['{', '__typeof__', '(', str(lhs), ')', v, '=']] + expr + [T(';', L)] + [T(x, L) for x in ret] + [T(x, L) for x in [str(lhs), '=', v, ';', '}']]
+                F.hit('EXC'); i += 1; continue
             out.append(t)
             if has_throw(seg) and not (seg and seg[0] == 'return'):
                 # do not split a `for(...;...;...)` header: stmt_start handles depth
@@ -469,6 +476,10 @@ def rule_try(tk, F):
             if tk[ce + 1] != '{': raise Drift("catch without block")
             he = match_close(tk, ce + 1)
             H = tk[ce + 2:he]
+            cparams = [x for x in tk[j + 2:ce] if re.match(r'[A-Za-z_]\w*$', x)]
+            if cparams and tk[ce - 1] not in ('...', '&', '*') and len(cparams) >= 2:
+                # catch (T& e): the handler may mention e; it becomes an opaque int
+                H = [T(x, t.line) for x in ('int', str(cparams[-1]), '=', '0', ';')] + H
             k = he + 1
             if tk[k:k + 1] == ['BOOST_CATCH_END']: k += 1
             n += 1; L = t.line; lab = '__catch%d_%d' % (L, n)
